@@ -62,7 +62,7 @@ def loadSectionPre (isSecret : Bool) (env : Env) (pname : String) (dict : KVs) :
     (setNameObjs pname (resolveObjsPre (if isSecret then xValue else "content") env objs)).bind fun objs2 =>
       decodeObjs (if isSecret then decodeSecret else decodeConfig)
         (pxKVs [if isSecret then "secrets" else "configs"] true objs2)
-  | some _ => .panic "loader.setNameFromKey"
+  | some _ => .err "setNameFromKey"
 
 def loadPre (env : Env) (pname : String) (dict : KVs) : Out Proj :=
   (loadSectionPre true env pname dict).bind fun ss =>
